@@ -238,15 +238,66 @@ func (f *faultWriter) close(kind string) {
 	}
 }
 
+// gates are opened by the director (op "open").
+type gates struct {
+	mu sync.Mutex
+	m  map[string]chan struct{}
+}
+
+func (g *gates) get(name string) chan struct{} {
+	g.mu.Lock()
+	defer g.mu.Unlock()
+	if g.m == nil {
+		g.m = map[string]chan struct{}{}
+	}
+	c, ok := g.m[name]
+	if !ok {
+		c = make(chan struct{})
+		g.m[name] = c
+	}
+	return c
+}
+
+func (g *gates) open(name string) {
+	c := g.get(name)
+	g.mu.Lock()
+	defer g.mu.Unlock()
+	select {
+	case <-c:
+	default:
+		close(c)
+	}
+}
+
+func (g *gates) wait(name string, d time.Duration) {
+	select {
+	case <-g.get(name):
+	case <-time.After(d):
+	}
+}
+
 type failingWriter struct {
-	w     io.Writer
-	after int
-	n     atomic.Int64
+	w       io.Writer
+	after   int
+	n       atomic.Int64
+	deliver bool
+	gates   *gates
+	rec     *recorder
 }
 
 func (f *failingWriter) Write(p []byte) (int, error) {
-	if f.after >= 0 && int(f.n.Add(1)) > f.after {
-		return 0, errors.New("injected write error")
+	if f.after >= 0 {
+		k := int(f.n.Add(1))
+		if k == f.after+1 && f.deliver {
+			// the bytes get out, the write is reported as failed - later
+			f.rec.add(atpcs.Ev{K: "latewrite"})
+			_, _ = f.w.Write(p)
+			f.gates.wait("write", 5*time.Second)
+			return 0, errors.New("injected write error (after delivery)")
+		}
+		if k > f.after {
+			return 0, errors.New("injected write error")
+		}
 	}
 	return f.w.Write(p)
 }
@@ -261,22 +312,23 @@ func (chanRW) Close() error { return nil }
 // ---- the scripted server ---------------------------------------------------------------------------
 
 type server struct {
-	rec     *recorder
-	mu      sync.Mutex
-	cond    *sync.Cond
-	nMsgs   int
-	nSigs   int
-	ws      map[string]bool
-	gotDone bool
-	readEnd bool
-	giveUp  time.Duration
-	stopped bool
-	fw      *faultWriter
-	mark    int
-	gaveUp  bool
-	wmu     sync.Mutex  // one writer at a time on the server-to-client stream (the real encoderMutex)
-	reports chan []byte // queued complaints (the real workDone channel), nil when not modelled
-	stop    chan struct{}
+	rec      *recorder
+	mu       sync.Mutex
+	cond     *sync.Cond
+	nMsgs    int
+	nSigs    int
+	ws       map[string]bool
+	gotDone  bool
+	readEnd  bool
+	giveUp   time.Duration
+	stopped  bool
+	fw       *faultWriter
+	mark     int
+	gaveUp   bool
+	wmu      sync.Mutex  // one writer at a time on the server-to-client stream (the real encoderMutex)
+	nWritten int         // completed writes
+	reports  chan []byte // queued complaints (the real workDone channel), nil when not modelled
+	stop     chan struct{}
 }
 
 // write is the only way the server writes to the client: event and write under one lock, so the
@@ -286,6 +338,9 @@ func (s *server) write(w *faultWriter, op, run string, b []byte) {
 	defer s.wmu.Unlock()
 	s.rec.add(atpcs.Ev{K: "srvwrite", Msg: op, Run: run, N: len(b)})
 	_, _ = w.Write(b)
+	s.mu.Lock()
+	s.nWritten++
+	s.mu.Unlock()
 }
 
 // reporter writes the queued complaints, like handleClosure of the real server.
@@ -583,7 +638,8 @@ func runJob(job atpcs.Job) (res atpcs.JobResult) {
 		})
 	}
 	fw := &faultWriter{w: s2cW, fault: job.Fault, closedAt: -1}
-	cw := &failingWriter{w: c2sW, after: job.WriteFailAfter}
+	gt := &gates{}
+	cw := &failingWriter{w: c2sW, after: job.WriteFailAfter, deliver: job.WriteFailDeliver, gates: gt, rec: rec}
 	cli := atp.NewClient(chanRW{s2cR, cw})
 
 	srv := &server{rec: rec, ws: map[string]bool{}, giveUp: timeout / 3, fw: fw}
@@ -723,10 +779,15 @@ func runJob(job atpcs.Job) (res atpcs.JobResult) {
 			}
 			if o.From {
 				x.from = make(chan schema.Input)
+				hold := o.Hold
 				go func(ch chan schema.Input) {
-					for range ch {
-						rec.add(atpcs.Ev{K: "gotsig", Run: x.run})
+					if hold {
+						gt.wait("consumer:"+x.run, timeout)
 					}
+					for sg := range ch {
+						rec.add(atpcs.Ev{K: "gotsig", Run: x.run, Msg: sg.RunID + "/" + sg.ID})
+					}
+					rec.add(atpcs.Ev{K: "sigclosed", Run: x.run})
 				}(x.from)
 			}
 			execs[o.R+"#"+strconv.Itoa(len(order))] = x
@@ -812,6 +873,13 @@ func runJob(job atpcs.Job) (res atpcs.JobResult) {
 			srv.mu.Lock()
 			srv.mark = o.N
 			srv.mu.Unlock()
+		case "awaitwritten":
+			n := o.N
+			srv.waitFor(func() bool { return srv.nWritten >= n })
+		case "sleep":
+			time.Sleep(time.Duration(o.N) * time.Millisecond)
+		case "open":
+			gt.open(o.R)
 		case "awaitws":
 			r := o.R
 			srv.waitFor(func() bool { return srv.ws[r] })
@@ -948,6 +1016,33 @@ func runJob(job atpcs.Job) (res atpcs.JobResult) {
 		}
 		if v1 := atpcs.Classify(it.Item, "v1"); v1.K == "v1done" {
 			intact["\x00v1\x00"+v1.XKey] = true
+		}
+	}
+	// every signal a caller received was emitted for its run (a good signal frame of that run in the
+	// delivered stream), at most as many as were emitted; a second close of the channel would have
+	// killed the process
+	emitted := map[string]int{}
+	for i, it := range items {
+		if it.Kind != "raw" || i == 0 {
+			continue
+		}
+		if mi := atpcs.Classify(it.Item, "loop"); mi.K == "msg" && mi.M.T == "sig" && mi.M.Good {
+			emitted[mi.M.RunS]++
+		}
+	}
+	got := map[string]int{}
+	for _, e := range evs {
+		if e.K == "gotsig" {
+			got[e.Run]++
+			// (the signal ID is payload: a corrupted byte in it is delivered as it is)
+			if !strings.HasPrefix(e.Msg, e.Run+"/") {
+				problem(prop, "a caller received a signal that was not emitted for its run: "+e.Msg, e.Run)
+			}
+		}
+	}
+	for r, n := range got {
+		if n > emitted[r] {
+			problem(prop, fmt.Sprintf("a caller received %d signals, %d were emitted for its run", n, emitted[r]), r)
 		}
 	}
 	for _, x := range order {
